@@ -234,12 +234,15 @@ theorem checkWF_sound_lemma (P : Partition) (h : checkWF P = true) : WF P :=
 theorem checkWFexec_sound_lemma (P : Partition) (h : checkWFexec P = true) : WFexec P :=
   ⟨computeLvl P, of_decide_eq_true h⟩
 
-/-- the full contract implies what the executor needs -/
-theorem wfexec_of_wf {P : Partition} (h : WF P) : WFexec P := by
+/-- overall outputs are not read by any part (they would be released with the inputs) -/
+def OutputsNotRead (P : Partition) : Prop := ∀ r, r < P.length → Cl.overallNotRead P r
+
+/-- the full contract, plus "no part reads an overall output", implies what the executor needs -/
+theorem wfexec_of_wf {P : Partition} (h : WF P) (hnr : OutputsNotRead P) : WFexec P := by
   obtain ⟨lvl, round, hwf⟩ := h
   refine ⟨lvl, ?_⟩
   intro r hr
-  obtain ⟨h1, h2, h3, _, h5, h6, h7, _, _, _, _, _, h13, _⟩ := hwf r hr
-  exact ⟨h1, h2, h3, h5, h6, h7, h13⟩
+  obtain ⟨h1, h2, h3, _, h5, h6, h7, _⟩ := hwf r hr
+  exact ⟨h1, h2, h3, h5, h6, h7, hnr r hr⟩
 
 end Pt.Dist
